@@ -33,11 +33,15 @@ def frame_obligations(g):
         frames.object_invariant(W, "write", g)
     from pycaption.dfxp.base import RegionCreator
     frames.object_invariant(RegionCreator, "create_document_regions", g)
+    # the module-wide obligations are restricted to what the writers' entry points can reach (by name,
+    # over-approximated): code only readers use is C10's business
+    trees = {m: frames.module_ast_of(importlib.import_module(m)) for m in MODULES}
+    entries = [(W.__name__, "write") for W in WRITERS] + [(W.__name__, "__init__") for W in WRITERS]
+    scoped, dropped = frames.reachable_trees(trees, entries)
+    g.check("scope: some code is reachable from the writers", sum(len(t.body) for t in scoped.values()) > 0, None)
     for m in MODULES:
-        mod = importlib.import_module(m)
-        tree = frames.module_ast_of(mod)
-        frames.no_hash_order(tree, g, m)
-        frames.no_global_mutation(tree, g, m)
+        frames.no_hash_order(scoped[m], g, m)
+        frames.no_global_mutation(scoped[m], g, m)
 
 
 # ------------------------------------------------------------------------------------ bounded part
@@ -66,8 +70,11 @@ def outputs_digest():
     for name in sorted(sets):
         for W in WRITERS:
             for k, opts in enumerate(OPTIONS[W]):
+                before = hashlib.sha256(json.dumps(samples.dump(sets[name]), default=repr).encode()).hexdigest()[:16]
                 out = write_or_error(W(**opts), sets[name])
-                h[f"{name}/{W.__name__}/{k}"] = hashlib.sha256(out.encode()).hexdigest()[:16]
+                # (digest of the input set, digest of the output): outputs are compared across hash seeds
+                # only where the inputs are the same - what a reader returns is C10's business
+                h[f"{name}/{W.__name__}/{k}"] = [before, hashlib.sha256(out.encode()).hexdigest()[:16]]
     return h
 
 
@@ -109,10 +116,17 @@ def bounded(ctx, b):
         out, err = pr.communicate(timeout=600)
         digests[s + str(len(digests))] = json.loads(out) if pr.returncode == 0 else {"error": err[-300:]}
     first = list(digests.values())[0]
+    if "error" in first:
+        raise RuntimeError("hash-seed subprocess failed: " + str(first["error"]))
     for key in sorted(first):
-        vals = {d.get(key) for d in digests.values()}
-        b.case(("hashseed", key), len(vals) == 1, {"output_depends_on_hash_seed": key, "digests": sorted(map(str, vals))},
-               sample={"key": key, "seeds": seeds})
+        got = [d.get(key) for d in digests.values()]
+        if any(not isinstance(x, list) for x in got):
+            b.case(("hashseed", key), False, {"subprocess_failed": [str(d.get("error"))[:200] for d in digests.values() if "error" in d]})
+            continue
+        same_input = len({x[0] for x in got}) == 1
+        vals = {x[1] for x in got}
+        b.case(("hashseed", key), (not same_input) or len(vals) == 1, {"output_depends_on_hash_seed": key, "digests": sorted(map(str, vals))},
+               sample={"key": key, "seeds": seeds}, nontrivial=same_input)
 
 
 def run(ctx):
